@@ -617,17 +617,20 @@ def _read_checks(W, model, rsel, log, stats, bump):
     try:
         for name, path in entries:
             present = f"bin={model['bin']},cbin={model['cbin']}"
+            iw = rsel.random() < 0.3          # reader options must not make the two forms distinguishable
             try:
-                sr = spikeglx.Reader(path)
+                sr = spikeglx.Reader(path, ignore_warnings=iw) if iw else spikeglx.Reader(path)
             except Exception as e:
-                raise Violation("C02.R", f"open:{name}:{type(e).__name__}", f"Reader({name} path) raised {e!r} with {present}")
+                raise Violation("C02.R", f"open:{name}:{type(e).__name__}", f"Reader({name} path{', ignore_warnings=True' if iw else ''}) raised {e!r} with {present}")
+            if iw:
+                bump("probes", "read_checks_with_ignore_warnings")
             try:
                 if not sr.is_open:
                     raise Violation("C02.R", f"open:{name}:not-open:{present}", f"Reader({name} path) did not resolve to a data file (file_bin={sr.file_bin}) with {present}")
                 if name == "meta" and model["bin"] == "absent":
                     bump("probes", "meta_entry_with_only_cbin")
                 if tuple(sr.shape) != (ns, nc) or sr.fs != ref.fs or sr.nc != ref.nc:
-                    raise Violation("C02.T", f"shape:{name}", f"shape {sr.shape} != {(ns, nc)} via {name} with {present}")
+                    raise Violation("C02.T", f"shape:{name}", f"shape {sr.shape} != {(ns, nc)} via {name} with {present}{' (ignore_warnings=True)' if iw else ''}")
                 for n, c, cls in sels:
                     try:
                         e = _rd(ref, n, c)
